@@ -13,7 +13,8 @@ from ref7z import coders as RC
 from ref7z import reader as RR
 from ref7z import writer as RW
 from vlib import arch, patches
-from vlib.runner import Check, Outcome
+from vlib.runner import REPO, Check, Outcome
+from checks.c06_reader import FIXTURE_PW
 
 import py7zr
 from py7zr.compressor import SupportedMethods
@@ -60,8 +61,75 @@ class C10(Check):
     def examples(self, env):
         return env.n(200, 4000)
 
+    def _fixtures(self, env):
+        # third-party archives (also ones py7zr cannot extract, e.g. BCJ2): the listing is compared with the reference reader's view of the header
+        import glob
+
+        i = 700
+        for p in sorted(glob.glob(os.path.join(REPO, "tests/data/*.7z"))):
+            i += 1
+            if env.mine(i) and os.path.getsize(p) < 400000:
+                yield {"src": "fixture", "name": os.path.basename(p)}
+
+    def _fixture_case(self, case, env):
+        out = Outcome()
+        name = case["name"]
+        pw = FIXTURE_PW.get(name)
+        with open(os.path.join(REPO, "tests/data", name), "rb") as f:
+            data = f.read()
+        try:
+            P = RR.parse(data, password=pw, decode=False)
+        except Exception:
+            out.skipped = "reference-reader-cannot-parse"
+            return out
+        if P.empty or any(m["name"] is None for m in P.files):
+            out.skipped = "no-names"
+            return out
+        out.nontrivial = len(P.folders) >= 1
+        out.descriptor = ("fixture", name)
+        out.label("src:fixture")
+        sig = {"src": "fixture"}
+        work = env.tmpdir("c10-")
+        try:
+            apath = os.path.join(work, name)
+            with open(apath, "wb") as f:
+                f.write(data)
+            try:
+                with py7zr.SevenZipFile(apath, "r", password=pw) as z:
+                    names = z.getnames()
+                    listing = [(f.filename, f.is_directory) for f in z.list()]
+                    ai = z.archiveinfo()
+                    np_ = z.needs_password()
+            except Exception as e:
+                out.skipped = "py7zr-cannot-open:" + type(e).__name__  # C06 judges readability
+                return out
+            want = [m["name"].replace("\\", "/") for m in P.files]
+            if names != want:
+                out.violate(dict(sig, kind="names-differ", api="getnames"), observed=names[:6], expected=want[:6])
+            if [n for n, _ in listing] != want:
+                out.violate(dict(sig, kind="names-differ", api="list"), observed=[n for n, _ in listing][:6], expected=want[:6])
+            if ai.blocks != len(P.folders):
+                out.violate(dict(sig, kind="summary-blocks-differ", multi_input=len(P.packinfo["sizes"]) != len(P.folders) if P.packinfo else False),
+                            observed=ai.blocks, expected=len(P.folders))
+            counts = [f["nsub"] for f in P.folders]
+            if bool(ai.solid) != any(c > 1 for c in counts):
+                out.violate(dict(sig, kind="summary-solid-differs"), observed={"solid": ai.solid, "streams_per_folder": counts[:6]}, expected=any(c > 1 for c in counts))
+            has_aes = any(c["m"] == RC.M_AES for f in P.folders for c in f["coders"]) or any(c["m"] == RC.M_AES for c in (P.header_coders or []))
+            if bool(np_) != (has_aes or pw is not None):
+                out.violate(dict(sig, kind="needs-password-wrong", aes=has_aes, supplied=pw is not None), observed=np_, expected=has_aes or pw is not None)
+        finally:
+            shutil.rmtree(work, ignore_errors=True)
+        return out
+
     def enumerated(self, env):
         yield from self._aes_first(env)
+        yield from self._fixtures(env)
+        # a password supplied (also the empty one) for an archive without any encryption coder
+        for j, spw in enumerate(("", "x")):
+            if env.mine(650 + j):
+                yield {"src": "py", "history": {"sessions": [{"filters": [{"id": G.F_COPY}], "entries": [
+                    {"how": "writestr", "data": ["hex", "6162"], "mode": 0o644, "mtime_ns": 10 ** 18, "name": "plain.txt"}]}],
+                    "header": "encoded", "target": "path", "password": None}, "absent": ["zz"], "supply_pw": False, "supply_anyway": spw}
         # empty archive and archives without streams
         if env.mine(1):
             yield {"src": "py", "history": {"sessions": [{"filters": None, "entries": []}], "header": "encoded", "target": "path", "password": None},
@@ -104,6 +172,8 @@ class C10(Check):
         return arch.tag_kf47(out, [(f, [m["data"] for m in added if m.get("kind") in ("file", "link") and m.get("data")]) for f, added in SS.RECORD])
 
     def _execute(self, case, env):
+        if case.get("src") == "fixture":
+            return self._fixture_case(case, env)
         out = Outcome()
         env.state["k"] += 1
         work = env.tmpdir("c10-")
@@ -161,6 +231,8 @@ class C10(Check):
             # header-encrypted archives cannot be opened without the password at all
             if pw is not None and P.encoded and any(c["m"] == RC.M_AES for c in (P.header_coders or [])):
                 supply = pw
+            if case.get("supply_anyway") is not None and pw is None:
+                supply = case["supply_anyway"]
             try:
                 z = py7zr.SevenZipFile(apath, "r", password=supply)
             except Exception as e:
